@@ -304,7 +304,8 @@ def wcs_spec(rng, proj=None, parity=None, frame=None, scale=None, crval=None, co
         # longitudes at the 0/360 wrap and at 180 deg are ordinary places on the sky
         lon0 = rng.choice([rng.uniform(0, 360), rng.uniform(0, 360), 0.0, 359.99999, 180.0, 1e-4])
         if proj == 'CAR':
-            crval = (lon0, 0.0)
+            # mostly the ordinary plate carree (reference point on the equator), sometimes an oblique one
+            crval = (lon0, 0.0 if rng.random() < 0.6 else rng.uniform(-60, 60))
         else:
             crval = (lon0, rng.choice([rng.uniform(-latmax, latmax), rng.uniform(-latmax, latmax), 0.0, latmax, -latmax]))
     if frame == 'galactic':
